@@ -1,5 +1,6 @@
-(* C29 proofs, part 3: the executable oracle c29_ok holds on every run of the model whose
-   rotation count is within the documented cap; above the cap every effective rotation dies. *)
+(* C29 proofs, part 3: the executable oracle c29_ok holds on every run of the model, whatever
+   the rotation count; the routines as they were before the repair a64fc7d die on every
+   effective rotation with a count above the cap. *)
 From Coq Require Import NArith Arith List Ascii Bool Lia.
 From F8 Require Import C29.Rotate C29.Spec_C29 C29.RotateProofs C29.RotateTheorems.
 Import ListNotations.
@@ -46,15 +47,15 @@ Lemma fresh_nil : forall d n, lookup d n = Some [] -> fresh d n = true.
 Proof. intros d n H. unfold fresh. rewrite H. reflexivity. Qed.
 
 (* ------------------------------------------------------------------ one step *)
-Lemma step_rotate_ok : forall c force d, c_rotnum c <= cap ->
+Lemma step_rotate_ok : forall c force d,
   exists d', step c (OpRotate force) d = Ok d' /\ step_ok c (OpRotate force) d d' = true.
 Proof.
-  intros [name rotnum append compress] force d Hcap. cbn [c_rotnum] in Hcap.
+  intros [name rotnum append compress] force d.
   cbn [step step_ok c_name c_rotnum c_append c_compress].
   change ((0 <? rotnum) && (negb append || force)) with (rotates rotnum append force).
   destruct (rotates rotnum append force) eqn:Hrot.
-  - destruct (rotate_sem name rotnum append compress force d Hcap Hrot) as [d' [Hrun [Hfresh [Hch Hfr]]]].
-    exists d'. split; [exact Hrun|]. rewrite (kept_le rotnum Hcap).
+  - destruct (rotate_sem name rotnum append compress force d Hrot) as [d' [Hrun [Hfresh [Hch Hfr]]]].
+    exists d'. split; [exact Hrun|].
     rewrite (shift_ok_of_chain _ _ _ _ Hch), (fresh_nil _ _ Hfresh). cbn [andb].
     rewrite cap_ok_of_frame.
     + cbn [andb]. apply untouched_ok_of_frame. intros x Hx. apply Hfr. intros k Hk E.
@@ -96,18 +97,18 @@ Proof.
     rewrite !lookup_append_to, !str_eqb_neq by congruence. reflexivity.
 Qed.
 
-Lemma step_init_ok : forall c purge d, c_rotnum c <= cap ->
+Lemma step_init_ok : forall c purge d,
   exists d', step c (OpInit purge) d = Ok d' /\ step_ok c (OpInit purge) d d' = true.
 Proof.
-  intros [name rotnum append compress] purge d Hcap. cbn [c_rotnum] in Hcap.
+  intros [name rotnum append compress] purge d.
   cbn [step step_ok c_name c_rotnum c_append c_compress].
   change ["."; "i"; "d"; "x"] with s_idx.
   pose proof (idx_name_neq name) as Hne.
   destruct purge.
   - destruct (0 <? rotnum) eqn:Hpos.
     + apply N.ltb_lt in Hpos.
-      destruct (initialise_sem name rotnum d Hcap Hpos) as [d' [Hrun [Hf1 [Hf2 [Cd [Ci Hfr]]]]]].
-      exists d'. split; [exact Hrun|]. rewrite (kept_le rotnum Hcap).
+      destruct (initialise_sem name rotnum d Hpos) as [d' [Hrun [Hf1 [Hf2 [Cd [Ci Hfr]]]]]].
+      exists d'. split; [exact Hrun|].
       rewrite (shift_ok_of_chain _ _ _ _ Cd), (shift_ok_of_chain _ _ _ _ Ci),
               (fresh_nil _ _ Hf1), (fresh_nil _ _ Hf2). cbn [andb].
       rewrite !cap_ok_of_frame.
@@ -119,7 +120,7 @@ Proof.
       * intros k Hk. apply Hfr. intros j Hj. split; intros E.
         -- apply gen_db_inj in E. lia.
         -- exact (gen_db_idx_disjoint name k j E).
-    + unfold initialise. rewrite orb_true_r. cbn [andb]. rewrite Hpos. cbn [res_map].
+    + unfold initialise, initialise_gen. rewrite orb_true_r. cbn [andb]. rewrite Hpos. cbn [res_map].
       eexists. split; [reflexivity|].
       repeat (apply andb_true_iff; split).
       * apply fresh_nil. rewrite lookup_open2, str_eqb_refl.
@@ -127,7 +128,7 @@ Proof.
       * apply fresh_nil. rewrite lookup_open2, str_eqb_refl. reflexivity.
       * apply untouched_ok_of_frame. intros x Hx. apply not_in_2 in Hx. destruct Hx as [H1 H2].
         rewrite lookup_open2, !str_eqb_neq by congruence. reflexivity.
-  - unfold initialise. destruct (lookup d name) as [c0|] eqn:Ed; cbn [orb andb res_map].
+  - unfold initialise, initialise_gen. destruct (lookup d name) as [c0|] eqn:Ed; cbn [orb andb res_map].
     + exists d. split; [reflexivity|].
       rewrite untouched_ok_of_frame by reflexivity. rewrite ?Ed, !opt_eqb_refl. reflexivity.
     + eexists. split; [reflexivity|].
@@ -140,68 +141,24 @@ Proof.
         -- reflexivity.
 Qed.
 
-Lemma step_ok_model : forall c o d, c_rotnum c <= cap ->
+Lemma step_ok_model : forall c o d,
   exists d', step c o d = Ok d' /\ step_ok c o d d' = true.
 Proof.
-  intros c [force|m|purge|m] d Hcap.
-  - apply step_rotate_ok; exact Hcap.
+  intros c [force|m|purge|m] d.
+  - apply step_rotate_ok.
   - apply step_write_ok.
-  - apply step_init_ok; exact Hcap.
+  - apply step_init_ok.
   - apply step_storewrite_ok.
 Qed.
 
 (* ------------------------------------------------------------------ whole runs *)
-Theorem model_ok : forall c ops d, c_rotnum c <= cap ->
+Theorem model_ok : forall c ops d,
   exists tr, run c ops d = Trace tr /\ c29_ok c d ops (Trace tr) = true.
 Proof.
-  intros c ops. induction ops as [|o ops IH]; intros d Hcap.
+  intros c ops. induction ops as [|o ops IH]; intros d.
   - exists []. split; reflexivity.
-  - destruct (step_ok_model c o d Hcap) as [d' [Hs Hok]].
-    destruct (IH d' Hcap) as [tr [Hr Htr]].
+  - destruct (step_ok_model c o d) as [d' [Hs Hok]].
+    destruct (IH d') as [tr [Hr Htr]].
     exists (d' :: tr). cbn [run]. rewrite Hs, Hr. split; [reflexivity|].
     cbn [c29_ok steps_ok]. rewrite Hok. exact Htr.
-Qed.
-
-(* above the cap: the first operation that really rotates ends the run *)
-Definition effective (c : cfg) (o : op) : bool :=
-  match o with
-  | OpRotate force => rotates (c_rotnum c) (c_append c) force
-  | OpInit purge => purge
-  | _ => false
-  end.
-
-Lemma step_oob : forall c o d, cap < c_rotnum c -> effective c o = true -> step c o d = OOB.
-Proof.
-  intros [name rotnum append compress] [force|m|purge|m] d Hcap He; cbn in He; try discriminate.
-  - apply rotate_oob; assumption.
-  - subst purge. apply initialise_oob. exact Hcap.
-Qed.
-
-Lemma step_not_effective : forall c o d, effective c o = false -> exists d', step c o d = Ok d'.
-Proof.
-  intros [name rotnum append compress] [force|m|purge|m] d He; cbn in He; cbn [step c_name c_rotnum c_append c_compress].
-  - rewrite (rotate_idle _ _ _ _ _ _ He). eexists; reflexivity.
-  - eexists; reflexivity.
-  - subst purge. unfold initialise. destruct (lookup d name); cbn [orb andb res_map]; eexists; reflexivity.
-  - eexists; reflexivity.
-Qed.
-
-Theorem oob_all : forall c ops d, cap < c_rotnum c ->
-  existsb (effective c) ops = true -> run c ops d = Died.
-Proof.
-  intros c ops. induction ops as [|o ops IH]; intros d Hcap Hex; [discriminate|].
-  cbn [existsb] in Hex. cbn [run].
-  destruct (effective c o) eqn:He.
-  - rewrite (step_oob c o d Hcap He). reflexivity.
-  - cbn [orb] in Hex. destruct (step_not_effective c o d He) as [d' ->].
-    rewrite (IH d' Hcap Hex). reflexivity.
-Qed.
-
-Theorem oob_none : forall c ops d,
-  existsb (effective c) ops = false -> exists tr, run c ops d = Trace tr.
-Proof.
-  intros c ops. induction ops as [|o ops IH]; intros d Hex; [exists []; reflexivity|].
-  cbn [existsb] in Hex. apply orb_false_iff in Hex. destruct Hex as [He Hex].
-  destruct (step_not_effective c o d He) as [d' Hs]. destruct (IH d' Hex) as [tr Hr].
-  exists (d' :: tr). cbn [run]. rewrite Hs, Hr. reflexivity.
 Qed.
